@@ -36,17 +36,18 @@ Print Assumptions C28_sort_descending.
 (* Discovery.  [it] is any set of installations: repository -> plugin name -> version directory names, the
    plugin directory being "octosql-plugin-" ++ name.  Whatever bytes the names consist of (dashes included),
    the listing has exactly one entry per installed plugin, in directory order, under exactly that name and
-   repository, with the versions sorted; and it fails only if some version directory name is not a version. *)
-Theorem C28_discover : forall it,
+   repository, with the versions sorted (no repository may be called ".staging", the name Install reserves
+   for its staging directory after the staged-install fix); and it fails only if some version directory name is not a version. *)
+Theorem C28_discover : forall it, no_staging it = true ->
   (tree_parses it = true ->
      listed (dir_tree it) = Ok (map (fun '(repo, name, vs) => mkMD name repo (sort_desc (parsed_or_nil vs))) (flat it)))
   /\ (tree_parses it = false -> listed (dir_tree it) = Err e_bad_version).
-Proof. intro it. split; [apply discover|apply discover_bad]. Qed.
+Proof. intros it NS. split; [apply discover; exact NS|apply discover_bad; exact NS]. Qed.
 Print Assumptions C28_discover.
 
 (* The pinned code keeps the text after the LAST dash: core/octosql-plugin-my-plugin is listed as "plugin". *)
 Theorem C28_discover_refuted : exists it,
-  tree_parses it = true /\
+  no_staging it = true /\ tree_parses it = true /\
   listed_pinned (dir_tree it) <> Ok (map (fun '(repo, name, vs) => mkMD name repo (sort_desc (parsed_or_nil vs))) (flat it)).
 Proof. exact discover_pinned_refuted. Qed.
 Print Assumptions C28_discover_refuted.
@@ -55,7 +56,7 @@ Print Assumptions C28_discover_refuted.
    unique, hence NoDup — a database of that type with constraint c resolves to a version that is installed, is
    accepted by c and is >= every installed version accepted by c; it fails to resolve only if none is accepted. *)
 Theorem C28_resolve : forall it repo name vs c l,
-  tree_parses it = true -> NoDup (map ref_of (flat it)) -> In (repo, name, vs) (flat it) ->
+  no_staging it = true -> tree_parses it = true -> NoDup (map ref_of (flat it)) -> In (repo, name, vs) (flat it) ->
   Forall canonv (parsed_or_nil vs) ->
   listed (dir_tree it) = Ok l ->
   match resolve l name repo c with
@@ -63,7 +64,7 @@ Theorem C28_resolve : forall it repo name vs c l,
               forall w, In w (parsed_or_nil vs) -> check c w = true -> version_le w v
   | None => forall w, In w (parsed_or_nil vs) -> check c w = false
   end.
-Proof. intros it repo name vs c l TP ND Hin C L. exact (resolve_correct it repo name vs c TP ND Hin C l L). Qed.
+Proof. intros it repo name vs c l NS TP ND Hin C L. exact (resolve_correct it repo name vs c NS TP ND Hin C l L). Qed.
 Print Assumptions C28_resolve.
 
 (* Install picks a highest manifest version accepted by the constraint, or a highest version without a
@@ -96,7 +97,7 @@ Example C28_hypotheses_satisfiable :
               s [49;46;49;46;48;43;98;53] (* 1.1.0+b5 *)]) ;
           (s [112;108;117;103;105;110] (* plugin *), [s [48;46;51;46;48]]) ]) ;
       (s [120] (* x *), [ (s [109;121;45;112;108;117;103;105;110], [s [50;46;48;46;48]]) ]) ] in
-  tree_parses it = true /\ NoDup (map ref_of (flat it)) /\
+  no_staging it = true /\ tree_parses it = true /\ NoDup (map ref_of (flat it)) /\
   Forall canonv (parsed_or_nil [s [49;46;48;46;48]; s [49;46;50;46;48;45;114;99;46;49]; s [49;46;49;46;48;43;98;53]]) /\
   (exists l, listed (dir_tree it) = Ok l /\
      option_map print_version (resolve l [109;121;45;112;108;117;103;105;110] [99;111;114;101] star)
@@ -105,8 +106,8 @@ Example C28_hypotheses_satisfiable :
                                  [[mkCS OpGe (SN 1) (Some (SN 0, Some (SN 0))) [[97]]]])
        = Some [49;46;50;46;48;45;114;99;46;49]).
 Proof.
-  cbv zeta. Time (split; [vm_compute; reflexivity|]). split.
+  cbv zeta. split; [vm_compute; reflexivity|]. split; [vm_compute; reflexivity|]. split.
   - vm_compute. repeat (constructor; [simpl; intro H; repeat (destruct H as [H|H]; [discriminate H|]); exact H|]). constructor.
   - split; [repeat constructor|].
-    eexists. split; [vm_compute; reflexivity|]). Time (split; vm_compute; reflexivity.
+    eexists. split; [vm_compute; reflexivity|]. split; vm_compute; reflexivity.
 Qed.
